@@ -28,9 +28,11 @@ def dep_block(features=ALL_FEATURES, default_features=True, with_nvrt=True, extr
 class Workspace:
     """A cargo workspace of shard libs + one runner bin."""
 
-    def __init__(self, name, nshards=16, profile=None):
+    def __init__(self, name, nshards=16, profile=None, rustflags=None, default_features=True):
         self.name = name
         self.profile = profile or PROFILE
+        self.rustflags = rustflags            # list of rustc flags for every crate of this workspace (written to .cargo/config.toml)
+        self.default_features = default_features
         self.dir = os.path.join(WORK, name)
         self.nshards = nshards
         self.shard_src = {}       # shard index -> text
@@ -80,7 +82,7 @@ class Workspace:
             write_if_changed(p, src)
             self.modranges[os.path.join(cname, "src", "lib.rs")] = ranges
             write_if_changed(os.path.join(self.dir, cname, "Cargo.toml"),
-                             '[package]\nname = "%s"\nversion = "0.1.0"\nedition = "2021"\n\n[dependencies]\n%s' % (cname, dep_block(features)))
+                             '[package]\nname = "%s"\nversion = "0.1.0"\nedition = "2021"\n\n[dependencies]\n%s' % (cname, dep_block(features, default_features=self.default_features)))
         main = "fn main() {\n    let mut v: Vec<Box<dyn nvrt::Subject>> = Vec::new();\n" + "".join("    %s::register(&mut v);\n" % m for m in members) + "    nvrt::runner::main(v);\n}\n"
         write_if_changed(os.path.join(self.dir, "runner", "src", "main.rs"), main)
         deps = "".join('%s = { path = "../%s" }\n' % (m, m) for m in members)
@@ -95,6 +97,11 @@ class Workspace:
         lock = os.path.join(self.dir, "Cargo.lock")
         if not os.path.exists(lock):
             shutil.copy(os.path.join(REPO, "Cargo.lock"), lock)
+        cfg = os.path.join(self.dir, ".cargo", "config.toml")
+        if self.rustflags:
+            write_if_changed(cfg, "[build]\nrustflags = [%s]\n" % ", ".join('"%s"' % x for x in self.rustflags))
+        elif os.path.exists(cfg):
+            os.remove(cfg)
 
     def attribute(self, diags):
         """map error diagnostics to declaration ids; returns (by_decl, unattributed)"""
@@ -176,7 +183,7 @@ def build_workspace(ws: Workspace, modules, features=ALL_FEATURES, max_rounds=14
     mods = list(modules)
     t0 = time.time()
     # quarantine cache: a module's verdict depends only on its text, the nutype sources, nvrt and the toolchain
-    fp = tree_fingerprint() + ":" + ",".join(features)
+    fp = tree_fingerprint() + ":" + ",".join(features) + ":" + str(ws.default_features) + ":" + " ".join(ws.rustflags or []) + ":" + (__import__("hashlib").sha1(ws.profile.encode()).hexdigest()[:8] if ws.profile != PROFILE else "0")
     cache_path = os.path.join(ws.dir, "quarantine_cache.json")
     cache = {}
     try:
